@@ -73,3 +73,11 @@ SPECS["C12"] = dict(level="exploration", assumptions=HIST_ASSUME[:2] + ["'exactl
 
 SPECS["C15"] = hist("TestC15", "three monitors over seeded histories: (a) every prune/expire job (min age 0 / 1 s / 1 h, batch 1 / 2 / 100, spliced at random positions) is followed by a full table diff checked against the job's documented deletion criterion; (b) twin pairs - the same seeded history (probe-sized pulls, no seeks) run with the prune jobs skipped and with them executed must give identical client-visible traces (operation, status, message ids, attempts); (c) after everything was deleted and 8 days passed, rows+2 rounds of all jobs in random order must leave no delivery, message, or soft-deleted row behind and no failing job. Non-trivial = at least one row was deleted by a job; distinct = distinct operation trace.",
     min_relevant={"quick": 200, "thorough": 2000})
+
+SPECS["C16"] = dict(level="exploration", server=True, server_race_thorough=True, min_relevant={"quick": 400, "thorough": 4000},
+    assumptions=["crash / wedge / 'answered with a status' is decided only on the real cmd/mmmbbb binary with its production interceptor chain (child process, gRPC over loopback TCP)",
+                 "'an error reply changes nothing' is decided in-process on the same generated requests with no background service running, by table-dump equality (a failed Pull may have refreshed subscriptions.expires_at)",
+                 "strings are valid UTF-8 (gRPC refuses anything else before the server sees it)"],
+    rule="per-field boundary domains on every implemented RPC and the three unimplemented ones: names (live / unknown / wrong kind / empty / 5 segments / empty project / empty id / garbage / very long), 32-bit integers (min, -1, 0, 1, max), durations (nil, negative, huge negative, zero, 1 ns, 10^4 years, invalid nanos, max), ack-id lists (live, stale, foreign, garbage, empty string, empty, mixed, unknown, duplicate), update masks (nil, empty, unknown, repeated, every known path with an empty body), optional blocks absent/empty, seek targets, payloads, page sizes/tokens: all single-field deviations from a valid base request plus seeded pairwise merges; 12 StreamingPull scripts. One case = one request; non-trivial = it deviates from the valid base; distinct = distinct (rpc, field, class).",
+    parts=[dict(name="binary", binary="rigp", pkg="rigp", test="TestC16", shards={"quick": 8, "thorough": 16}),
+           dict(name="state", binary="rigv", pkg="rigv", test="TestC16state", shards={"quick": 8, "thorough": 16})])
